@@ -104,7 +104,7 @@ fn c20_square_roundtrip() {
     assert!(BitBoard::set(r, f).0 == 1u64 << (r.to_index() * 8 + f.to_index()));
 }
 
-// @ob id=O20.4 props=C20,C14 tier=quick kind=proof fn="BitBoard::popcnt" desc="popcnt == number of set bits, for all 2^64 values (64-step definitional count)"
+// @ob id=O20.4 props=C20 also=C14 tier=quick kind=proof fn="BitBoard::popcnt" desc="popcnt == number of set bits, for all 2^64 values (64-step definitional count)"
 #[kani::proof]
 fn c20_popcnt() {
     let a: u64 = kani::any();
@@ -119,7 +119,7 @@ fn c20_popcnt() {
     assert!(BitBoard(a).popcnt() == n);
 }
 
-// @ob id=O20.5 props=C20,C01,C14 tier=quick kind=proof fn="Iterator::next for BitBoard" desc="next() on the empty set returns None and leaves it empty; otherwise returns the lowest member and removes exactly that member"
+// @ob id=O20.5 props=C20 also=C01,C14 tier=quick kind=proof fn="Iterator::next for BitBoard" desc="next() on the empty set returns None and leaves it empty; otherwise returns the lowest member and removes exactly that member"
 #[kani::proof]
 fn c20_next_contract() {
     let a: u64 = kani::any();
